@@ -48,6 +48,10 @@ PROBES = [
     '10 IF A = 1 THEN X = 1.5 ELSE IF A = 2 THEN X = &HF ELSE X = 1E2', '10 FOR I = 1 TO 2 STEP 1 : PRINT I : NEXT',
     '10 ON A + 1 GOTO 10 : ON B GOSUB 10', '10 HCOLOR 1 : HSCREEN 1 : HCLS 1 : CLS 1 : WIDTH 40', '10 RGB : CMP : PALETTE RGB',
     '10 A$ = "HELLO"\n20 PRINT "A  B" ; "  C  "\n30 B$ = "X  Y"', '10 LET Q$ ( 1 ) = "AB"\n20 REM  TWO  BLANKS\n30 DATA A  B , "C  D"',
+    # a string literal without its closing quote at the end of a line, in every statement that takes one (PRINT is also spelled ?)
+    '10 PRINT "HELLO', '10 IF A THEN PRINT "NO', '10 PRINT "A";B;"TOTAL  ', '10 PRINT @ 5, "X', '10 A = 1 : PRINT "Y', '10 PRINT A$;"',
+    '10 HPRINT ( 1 , 2 ) , "HI', '10 PLAY "CDE', '10 HDRAW "U1', '10 INPUT "WHO', '10 LINE INPUT "L', '10 A$ = B$ + "X', '10 PRINT "A" : PRINT "B',
+    '10 IF A = 1 THEN PRINT "Y" ELSE PRINT "N', '10 PRINT "ONE"\n20 PRINT "TWO\n30 PRINT "THREE"',
     '10 PRINT TAB ( 5 ) ; "X" ; HEX$ ( 255 ) ; STR$ ( 1 ) ; VAL ( "1" ) ; ASC ( "A" ) ; CHR$ ( 65 ) ; LEN ( A$ )',
 ]
 
